@@ -23,6 +23,21 @@ DoUnpack(dp, cls, raw, regs) ==
 DoPack(dp, cls, vals, regs) ==
     LET p == RunP(dp, PInit0(cls, vals, regs)) IN [ok |-> p.st = "done", out |-> p.out]
 
+\* ... of a packet whose described fields `exp` were assigned explicitly (their descriptors are switched off)
+DoPackE(dp, cls, vals, regs, exp) ==
+    LET p == RunP(dp, [PInit0(cls, vals, regs) EXCEPT !.explicit = exp, !.nexp = TRUE]) IN [ok |-> p.st = "done", out |-> p.out]
+\* what the attributes of a live packet read as: a described field reads as the value assigned to it, or as what its
+\* descriptor computes from the other fields (the hidden slot behind it is not observable)
+DescNamesOf(prog, cls) == {prog[cls].fields[i].name : i \in {j \in 1..Len(prog[cls].fields) :
+                             prog[cls].fields[j].k = "Int" /\ prog[cls].fields[j].desc.kind # "none"}}
+VisibleOf(prog, cls, vals, exp) ==
+    [i \in 1..Len(vals) |->
+        IF vals[i].n \in DescNamesOf(prog, cls)
+        THEN LET f == prog[cls].fields[CHOOSE j \in 1..Len(prog[cls].fields) : prog[cls].fields[j].name = vals[i].n]
+                 r == DescRead(f, vals, exp) IN
+             [n |-> vals[i].n, v |-> IF r.ok THEN r.v ELSE [t |-> "other"]]
+        ELSE vals[i]]
+
 \* named deviation F2: the registers an unpack leaves behind differ from those it found
 RegsChanged(before, after) == before # after
 \* named deviation F3 is a feature of the declaration: a selector written as a deferred expression whose
